@@ -17,6 +17,10 @@ OBLIGATIONS = [
      "statement": "closeNow erases _peerIndex[pkey] only when it maps to the closing session (translated from the source)"},
     {"id": "C06_G3", "theorem": "Iora.C06.G3_index_sites", "kind": "proved",
      "statement": "_peerIndex is mutated only at the four mirrored sites, inserts only for absent keys, no default session cap"},
+    {"id": "C06_T1_once", "theorem": "Iora.C06.T1_at_most_one", "kind": "proved",
+     "statement": "for every history no two sent datagrams belong to the same accepted send (EAGAIN queues, flushes, overflow drops, closes included)"},
+    {"id": "C06_T1_faithful", "theorem": "Iora.C06.T1_faithful", "kind": "proved",
+     "statement": "for every history a sent datagram with token t: input t is cmdSend sid <same bytes>, sid was open then, dest = its peer then, socket = its socket"},
     {"id": "C06_T2_inv", "theorem": "Iora.C06.T2_index_sound", "kind": "proved",
      "statement": "after every history each index entry points to an open ServerPeer session of that very peer"},
     {"id": "C06_T2_one", "theorem": "Iora.C06.T2_one_datagram", "kind": "proved",
@@ -469,7 +473,7 @@ def run(ctx: Ctx):
     if ok_build:
         ctx.audit(MODULES, OBLIGATIONS)
         if not quick:
-            ctx.leanchecker(MODULES + ["IoraModel.Lemmas.UdpEngine", "IoraModel.Model.UdpEngine", "IoraModel.Gen.Udp"])
+            ctx.leanchecker(MODULES + ["IoraModel.Lemmas.UdpTokens", "IoraModel.Lemmas.UdpEngine", "IoraModel.Model.UdpEngine", "IoraModel.Gen.Udp"])
     else:
         ctx.cov["obligations"] = len(OBLIGATIONS)
     hb = ctx.build_harness(HARNESS, sanitize=True)
